@@ -113,6 +113,7 @@ func TestVerifC09Websocket(t *testing.T) {
 			h := newWSHandler("10.0.0.99:9000", env.Dial, nil)
 			req, _ := http.ReadRequest(bufio.NewReader(strings.NewReader("GET /ws HTTP/1.1\r\nHost: foo.com\r\nUpgrade: websocket\r\nConnection: Upgrade\r\n\r\n")))
 			var reqBytes bytes.Buffer
+			req.Header.Set("User-Agent", "") // the client sent none: Request.Write must not make one up for the expectation either
 			req.Write(&reqBytes)
 			req, _ = http.ReadRequest(bufio.NewReader(strings.NewReader("GET /ws HTTP/1.1\r\nHost: foo.com\r\nUpgrade: websocket\r\nConnection: Upgrade\r\n\r\n")))
 			rw := &hijackRW{h: http.Header{}, conn: in, early: payload[:s.early]}
